@@ -16,6 +16,8 @@ LEVEL_NOTE = ('Trusted: front-ends, interpreter, real algebra; the rounding erro
 EXPLANATION = ('R17.1 inverse pairs (py and pyx); R17.2 py twin == pyx twin incl. constants; R17.3 only OrbitBase methods store the Kepler lists, property setters raise; '
                'R17.4 after every mutator the stored (a, n, P) of that world satisfy Kepler III with (host mass, world mass) and P = 2 pi / n / 86400, or are all cleared, setters write exactly the designated slot and getters read the slot the setters write; R17.5 no in-place update of arguments; R17.7 every round trip is built from well-conditioned operations only and its first-order rounding bound K u has K <= 16 (K recorded in the evidence).')
 EXPLANATION += ' R17.6 the array twin: every interpreted call repeated with array arguments (mutable cells) returns the scalar values element for element and leaves the arguments intact.'
+EXPLANATION += (' R17.8 no single-precision C local takes part in the compiled conversions. R17.9 every exit of an orbit mutator, returning or raising, with TidalPy.extensive_checks off and on and every '
+                'outcome of the tests made on the value, leaves each slot untouched or holding a complete Kepler-consistent (a, n, P); update sequences of two and three calls from populated and cleared orbits.')
 
 PAIRS = (('m2Au', 'Au2m'), ('rads2days', 'days2rads'), ('sec2myr', 'myr2sec'), ('orbital_motion2semi_a', 'semi_a2orbital_motion'))
 
